@@ -2308,6 +2308,39 @@ theorem bridge_mutators_atomic :
     (mustBeAtomic.all fun f => Paloma.Gen.Atomicity.cachedFunctions.any fun c =>
       c.fn == f && c.conditionalCommit && c.outerContextUses.isEmpty) = true := by decide
 
+/-- how a cached operation leaves its caller, as far as the commit decision is concerned -/
+inductive Exit where
+  | ok | error | panic
+deriving DecidableEq, Repr
+
+/-- The commit idiom of the bridge's cached operations as a function: `pre` is the state the operation was
+given, `post` the content of its cached context when it is left.  An inline commit is simply not reached
+by a panic; a DEFERRED commit runs while the panic unwinds, and the named error result is still `nil` then,
+so without a `recover()` test in front of it the half-done `post` is what the caller (the end-blocker's own
+`recover`) carries on with. -/
+def commitIdiom (deferred guarded : Bool) (pre post : α) : Exit → α
+  | .ok => post
+  | .error => pre
+  | .panic => if deferred && !guarded then post else pre
+
+/-- **panic_is_a_failure.** With the guard — or with an inline commit — a panicking operation leaves the
+state it was given, exactly like one that reports an error. -/
+theorem panic_is_a_failure (deferred guarded : Bool) (h : (!deferred || guarded) = true) (pre post : α) :
+    commitIdiom deferred guarded pre post .panic = pre ∧
+    commitIdiom deferred guarded pre post .error = pre := by
+  cases deferred <;> cases guarded <;> simp_all [commitIdiom]
+
+/-- without the guard a deferred commit persists the half-done state (the defect repaired by /repo `bfa39307`;
+    reproduced on the real keeper by the panic pass of the fault sweep) -/
+theorem unguarded_deferred_commit_keeps_partial_state (pre post : α) :
+    commitIdiom true false pre post .panic = post := rfl
+
+/-- **bridge_mutators_panic_safe.** In the current source every all-or-nothing bridge function either commits
+inline or tests `recover()` before its deferred commit. -/
+theorem bridge_mutators_panic_safe :
+    (mustBeAtomic.all fun f => Paloma.Gen.Atomicity.cachedFunctions.any fun c =>
+      c.fn == f && (!c.deferredCommit || c.panicGuard)) = true := by decide
+
 /-- **ids_fresh.** A new transfer gets an id above every id ever accepted; a new batch a nonce
 above every open batch's nonce. -/
 theorem ids_fresh (ops : List Op) :
